@@ -262,10 +262,18 @@ def _oracle(w, drv, sc, st, stats, out):
         addrs = set(info.addresses_by_version(IPVersion.All))
         if res != bool(addrs):
             out.add("C18.success-iff-address", f"lookup returned {res} with addresses {sorted(addrs)}")
+        if not res and t_ret < t_start + timeout - 0.001:
+            out.add("C18.false-before-timeout", f"lookup returned False {1000 * (t_ret - t_start):.3f} ms after its start, "
+                    f"timeout {lk['timeout']} ms")
+        if stalled_near:
+            # a lookup that ran while its process was descheduled (or was started in the instant the process came
+            # back, together with the backlog): what the cache held "at the start" and which records arrived "during"
+            # it cannot be read off the instants - only the return clauses above are judged
+            stats["lookups_across_a_stall"] = stats.get("lookups_across_a_stall", 0) + 1
+            continue
         if not res:
             if t_ret < t_start + timeout - 0.001:
-                out.add("C18.false-before-timeout", f"lookup returned False {1000 * (t_ret - t_start):.3f} ms after its start, "
-                        f"timeout {lk['timeout']} ms")
+                pass
             else:
                 stats["returned_at_timeout"] += 1
             # "succeeds iff it knows an address of the service's host": what was delivered to the instance and is still
